@@ -38,6 +38,8 @@ struct C19 : Prop {
 		if (budget_impeded) { std::vector<const cfg::Board *> sa; for (auto &b : w.boards) if (b.present && b.secack()) sa.push_back(&b); if (sa.empty()) budget_impeded = false; else bb = sa[r.below(sa.size())]; }
 		if (budget_impeded) { J bus = plan["bus"]; J da = J::arr(); da.push((int) MSG_SYS_SW_VERSION); bus.set("drop_answers", da); plan.set("bus", bus); }
 		plan.set("budget_impeded", budget_impeded);
+		// one run in six: one answer of the start-up dialogue is duplicated on the bus (a stray feature confirmation must not change which boards are Secure-ACK boards)
+		if (r.chance(170)) { J bus = plan["bus"]; J td = J::arr(); J e = J::arr(); e.push((int) MSG_FEATURE); e.push((int) r.range(1, 6)); e.push((int) r.below(2)); td.push(e); bus.set("type_dup_once", td); plan.set("bus", bus); }
 		J se = cfg::normal_session(0, 0);
 		J phs = J::arr();
 		int nph = (int) r.range(1, thorough ? 3 : 2), maxt = 1;
@@ -99,7 +101,9 @@ struct C19 : Prop {
 					else {
 						// senders use messages without response budget and never a mirror type themselves; no flush (that is the point)
 						static const char *fns[] = {"sys_clock", "node_changed_ack", "lc_port_query_all", "lc_configx_get_all", "cs_allocate"};
-						ops.push(pc::ll_op(r, *cat::find(fns[r.below(5)]), bs[r.below(bs.size())]->addr));
+						// (one in five: the application asks a board for its occupancy with an action id of its own - the answer is a report like any other)
+						if (!impeded && !budget_impeded && r.chance(200)) ops.push(pc::ll_op(r, *cat::find("bm_get_range_with_action_id"), bs[r.below(bs.size())]->addr));
+						else ops.push(pc::ll_op(r, *cat::find(fns[r.below(5)]), bs[r.below(bs.size())]->addr));
 					}
 				}
 				tasks.push(ops);
